@@ -17,6 +17,13 @@ def mk_full_parser(b):
                  comment=b.optstr("prev.comment"), eol=b.string("prev.eol"), _commandString=b.optstr("prev.commandString"))
 
 
+def _same(a, b):
+    """a <=> b for python booleans / z3 Booleans."""
+    if ops.is_sym(a) or ops.is_sym(b):
+        return And(Implies(a, b), Implies(b, a))
+    return bool(a) == bool(b)
+
+
 def _parse_contract():
     c = REGISTRY.get(GP + "parse")
 
@@ -78,6 +85,42 @@ def _parse_contract():
         offz = z3.IntVal(off) if isinstance(off, int) else off
         return Implies(offz < z3.Length(sstr_to_z3(src)), f.self.length >= 1)
     c.ensures("C18.progress", progress, props=("C18",))
+
+    def this_line_only(f):
+        """The parser object is re-used for every line: after parse() every field describes THIS line -- present exactly
+        when the corresponding group of the match is (line number, code type, code, sub-code, parameters, checksum, raw
+        checksum, comment), whatever the previous line left behind; the caches are cleared."""
+        p = f.self
+        if getattr(f, "native", False):
+            src, off = start_of(f)
+            fresh = type(p)()
+            fresh.parse(src, off)
+            names = ("_lineNumber", "_type", "_code", "_gcode", "_subCode", "_parameters", "_checksum", "_rawChecksum", "comment",
+                     "leadingWhitespace", "text", "trailingWhitespace", "eol", "_parameterDict", "_commandString")
+            return all(getattr(p, n) == getattr(fresh, n) for n in names)
+        import z3
+        ms = f.g.get("rx.matches") or []
+        if len(ms) != 1:
+            return False
+        groups = ms[0]["groups"]
+
+        def absent(i):
+            present, _ = groups[i]
+            return z3.Not(present)
+
+        def none(v):
+            if v is None:
+                return True
+            if hasattr(v, "isnone"):
+                return v.isnone
+            return False
+        typed_absent = z3.And(absent(4), absent(7))
+        return And(_same(none(p._lineNumber), absent(3)), _same(none(p._type), typed_absent), _same(none(p._code), typed_absent),
+                   _same(none(p._gcode), typed_absent), _same(none(p._subCode), Or(typed_absent, absent(6))),
+                   _same(none(p._parameters), absent(9)), _same(none(p._checksum), absent(10)),
+                   _same(none(p._rawChecksum), absent(10)), _same(none(p.comment), absent(12)),
+                   p._parameterDict is None, p._commandString is None)
+    c.ensures("C18.fields-describe-this-line-only", this_line_only, props=("C18", "C19", "C20"))
     c.ensures("returns-self", lambda f: f.result is f.self, props=("C18",))
     c.split(5)
 
